@@ -631,7 +631,17 @@ def builtin_method(ex, st, obj, mname, args, kwargs, cx, node, k):
             f_ = ex.uf('str_isspace', z3.StringSort(), z3.BoolSort())
             return k(st, SV(BOOL, f_(obj.z)))
         if mname == 'replace':
-            return k(st, SV(STR, z3.Replace(obj.z, args[0].z, args[1].z)))  # NB first occurrence only: callers must not rely on it
+            # str.replace replaces EVERY occurrence; z3's str.replace only the first, so the result is left
+            # uninterpreted (a deterministic function of the three strings); None as an argument raises TypeError
+            def unwrap(s_, i_, cont):
+                a_ = args[i_]
+                if a_.ty.kind == 'opt' and a_.ty.args[0].kind == 'str':
+                    dt_ = T.sort_of(a_.ty)
+                    return ex.guard_raise(s_, cx, z3.Not(dt_.is_some(a_.z)), 'TypeError', node,
+                                          lambda s2: cont(s2, dt_.val(a_.z)), why='replace() argument is None')
+                return cont(s_, ex.coerce(a_, STR).z)
+            rp = ex.uf('str_replace', z3.StringSort(), z3.StringSort(), z3.StringSort(), z3.StringSort())
+            return unwrap(st, 0, lambda s1, a0: unwrap(s1, 1, lambda s2, a1: k(s2, SV(STR, rp(obj.z, a0, a1)))))
     raise VCError(f'method {mname} of {t!r} outside subset: {ast.unparse(node)}')
 
 
